@@ -303,3 +303,13 @@ class Shadow:
             kend = float(np.max(np.sum(np.abs(W), axis=1)))
         normA = float(np.max(np.sum(np.abs(A), axis=1))) if A.size else 0.0
         return uend, kend, kappa, (float(np.max(np.abs(U))) if U.size else 0.0), normA
+
+    def reference_nodes(self, u0, t, dt):
+        """Node values of the fine collocation solution of one step (M x n), solved densely."""
+        A, n, dtype = self.linearisation(t)
+        nodes, weights, Q = self.coll(0)
+        M = len(nodes)
+        b = [self.F(0, np.zeros(n, dtype=dtype), t + dt * nodes[m]) for m in range(M)]
+        Big = np.eye(M * n, dtype=A.dtype) - dt * np.kron(Q, A)
+        rhs = np.tile(np.asarray(u0).reshape(-1).astype(A.dtype), M) + dt * (np.kron(Q, np.eye(n)) @ np.concatenate(b).astype(A.dtype))
+        return np.linalg.solve(Big, rhs).reshape(M, n)
